@@ -234,11 +234,22 @@ def run(tier: str) -> int:
 
                     def fail(self, rec):
                         self.n += 1
+                        self.hit.add(rec.get("corrupted_idx"))
                 sink = _Sink()
-                tc.validate_traces(sink, [(t, {}) for t, _ in bad], "self-test: corrupted traces", 800)
-                ck.note("selftest_corrupted_traces", {"made": len(bad), "rejected": sink.n, "kinds": sorted({k for _, k in bad})})
-                if sink.n != len(bad):
-                    raise tlc.TLCFailure(f"trace spec accepted {len(bad) - sink.n} corrupted traces")
+                sink.hit = set()
+                tc.validate_traces(sink, [(t, {"corrupted_idx": j, "corruption": k}) for j, (t, k) in enumerate(bad)],
+                                   "self-test: corrupted traces", 800)
+                accepted = [j for j in range(len(bad)) if j not in sink.hit]
+                by_kind = {k: [sum(1 for j, (_, kk) in enumerate(bad) if kk == k and j in sink.hit), sum(1 for _, kk in bad if kk == k)]
+                           for k in sorted({k for _, k in bad})}
+                ck.note("selftest_corrupted_traces", {"made": len(bad), "rejected": len(sink.hit), "rejected_of_made_by_kind": by_kind,
+                                                      "accepted_examples": [{"kind": bad[j][1], "trace": bad[j][0]} for j in accepted[:3]]})
+                # the self-test guards against a vacuous trace spec.  A corrupted copy can coincide with a legal behaviour
+                # (e.g. the dropped run of an item that another action of the same instant may cancel), so single
+                # acceptances are recorded in the evidence, not fatal; a kind of corruption that is never rejected, or more
+                # than 2% accepted, is a machinery failure
+                if any(r == 0 for r, _ in by_kind.values()) or len(accepted) > max(1, len(bad) // 50):
+                    raise tlc.TLCFailure(f"trace spec accepted {len(accepted)} of {len(bad)} corrupted traces: {by_kind}")
             res, label = f_design.result()
             ck.add_tlc(res, label)
             ck.note("design_coverage", {k: v for k, v in res.coverage.items() if k in DESIGN_NEED})
